@@ -128,7 +128,12 @@ impl Monitor for C18 {
                     Val::NI(_) => "expected.integer",
                     _ => "expected.float",
                 });
-                if got.same_bits(&want) {
+                // "with v's bits unchanged": NaN payloads and signs are compared too
+                let bits_ok = match (&got, &want) {
+                    (Val::NF(a), Val::NF(b)) => a.to_bits() == b.to_bits(),
+                    _ => got.same_bits(&want),
+                };
+                if bits_ok {
                     pass(true)
                 } else {
                     let region = if x.abs() >= 9.2e18 { "at-or-above-2^63" } else if x.is_nan() { "nan" } else if x == x.trunc() { "integral" } else { "fractional" };
